@@ -443,7 +443,11 @@ def check_case(case, seed=0):
         nchecks += 1
         try:
             if not (cs3 == cs):
-                bad("from_dict_to_dict_eq", "not_equal", "from_dict(to_dict(cs)) != cs")
+                order0 = [c.name for c in cs._g.nodes if c is not E.output]
+                order1 = [c.name for c in cs3._g.nodes if c is not E.output]
+                bad("from_dict_to_dict_eq", "not_equal",
+                    f"from_dict(to_dict(cs)) != cs (node order {order0} -> {order1}; central/dosing compartments depend on it)",
+                    n_out_ge2=case["nout"] >= 2, node_order_changed_by_roundtrip=order0 != order1)
         except Exception as e:  # noqa: BLE001
             bad("from_dict_to_dict_eq", type(e).__name__, f"from_dict(to_dict(cs)) == cs raised {type(e).__name__}: {e}")
 
